@@ -98,7 +98,7 @@ func init() {
 	worlds["logworld"] = &worldSpec{
 		name: "logworld", pkgs: []string{"logger", "httpd", "util/netutil"}, quick: 6000, thorough: 80000,
 		real: []string{"logger/*.go (Nano/Text/JSON handlers, Logger, buffer pool; sync and time imports shimmed, accesses instrumented)", "log/slog", "encoding/json", "strconv", "fmt", "runtime.Callers"},
-		stub: []string{"goroutine scheduling", "sync.Mutex behind outMu", "both sync.Pools (fresh / most recent / stale object chosen by the simulator)", "clock (constant: no timers in this world)", "caller tasks (harness)", "destination io.Writer (slow, short, failing)"},
+		stub: []string{"goroutine scheduling", "sync.Mutex behind outMu", "both sync.Pools (fresh / most recent / stale object chosen by the simulator)", "clock (moves between records by 0..1h; the reference is computed at the instant the record was stamped with)", "caller tasks (harness)", "destination io.Writer (slow, short, failing)"},
 		rule: "one case = one simulated run: handler kind, threshold, colour and source flags, a derivation tree of up to 12 loggers built before and during the run, 1..4 client tasks logging and deriving through shared nodes with generated attribute lists (all slog kinds, nested/inline groups, LogValuer, AnsiString, lines over 16 KiB), a probe record through every node at the end; every line is compared with an isolated replay of its logger's own chain; non-trivial = at least one context switch where the running task could have continued, forced pre-emption or fired fault; distinct = distinct hash of the full event history",
 		assume: []string{"the reference is the same code in isolation (fresh root, fresh pool buffers, sequential): a defect that changes isolated and concurrent output identically is invisible here (that is C01/C13 territory, not applicable to this technique)", "sampling, not proof: <=12 loggers, <=4 clients x <=7 operations"},
 	}
@@ -113,7 +113,7 @@ func init() {
 		name: "fsworld", pkgs: []string{"util/osutil"}, quick: 8000, thorough: 20000, enum: true, level: "fault_enumeration",
 		real: []string{"util/osutil/file.go (CopyFile, MoveFile: control flow, defers, error handling)", "io.Copy (32 KiB loop)"},
 		stub: []string{"the file system behind package os (simgo/shim/sos: inodes, links, symlinks, path resolution, two devices, open file descriptions, O_TRUNC at open, rename/unlink semantics) with per-call fault plans", "no concurrency in this property: the scheduler is idle"},
-		rule: "cases = (a) every scenario of {CopyFile, MoveFile} x 7 source sizes (0..1 MiB) x {regular, missing, via symlink} x 16 destination layouts (missing, shorter, longer, same path, ./ and dir/../ spellings, symlink to source, hard link of source, directory, parent missing, parent is a file, other mount missing/existing, dangling symlink, symlink to another file, symlink on the other mount to the source), fault-free; (b) for each scenario every single-fault placement: each call of its recorded trace x each errno applicable to that primitive (writes additionally x {0, half, all-but-one} bytes written before the error) - (a) and (b) are enumerated completely; (c) seeded plans of up to three faults over random scenarios. distinct = distinct hash of (scenario, call trace with faults, result); every case is non-trivial (it runs the operation)",
+		rule: "cases = (a) every scenario of {CopyFile, MoveFile} x 7 source sizes (0..1 MiB) x {regular, missing, via symlink} x 17 destination layouts (missing, shorter, longer, same length with other bytes, same path, ./ and dir/../ spellings, symlink to source, hard link of source, directory, parent missing, parent is a file, other mount missing/existing, dangling symlink, symlink to another file, symlink on the other mount to the source), fault-free; (b) for each scenario every single-fault placement: each call of its recorded trace x each errno applicable to that primitive (writes additionally x {0, half, all-but-one} bytes written before the error) - (a) and (b) are enumerated completely; (c) seeded plans of up to three faults over random scenarios. distinct = distinct hash of (scenario, call trace with faults, result); every case is non-trivial (it runs the operation)",
 		assume: []string{"the simulated file system is faithful where the property looks: every fault-free scenario is also executed by the unrewritten package on the real file system (second mount: /dev/shm) and must agree in error class and resulting contents", "errors surfacing only at Close and power loss are outside the property's fault list"},
 	}
 	worlds["fsworld"].probes = map[string][]string{"*": {"traces_validated_against_real_fs", "fs.rename:EXDEV", "fs.write:ENOSPC", "fs.read:EIO", "fs.unlink:EPERM", "fs.truncate:EIO"}}
@@ -123,7 +123,7 @@ func init() {
 		"C15": {"zero_length_first_write", "abort_handler_panic", "panic_before_writing", "panic_after_status", "panic_after_partial_body", "client.write_error", "pool.stale_pick"}}
 	propWorld["C05"] = "httpworld"
 	propWorld["C15"] = "httpworld"
-	worlds["logworld"].probes = map[string][]string{"*": {"line_over_pool_limit", "line_near_pool_limit", "long_key_path", "empty_derivation", "siblings_of_derived_parent", "inline_group", "below_threshold", "slow_write", "folded_compared", "pool.miss_with_items", "pool.stale_pick", "sink.short_write", "sink.write_error"}}
+	worlds["logworld"].probes = map[string][]string{"*": {"clock_moves_between_records", "line_over_pool_limit", "line_near_pool_limit", "long_key_path", "empty_derivation", "siblings_of_derived_parent", "inline_group", "below_threshold", "slow_write", "folded_compared", "pool.miss_with_items", "pool.stale_pick", "sink.short_write", "sink.write_error"}}
 	propWorld["C02"] = "logworld"
 	propWorld["C03"] = "logworld"
 	worlds["filterworld"].probes = map[string][]string{
